@@ -182,7 +182,8 @@ ON_GRID = [1.0, 1.5, 2.0, 0.5, 1.25]
 def edit_ops():
     pot = S._potential(1.0).map(lambda d: [d[0], dict({k: v for k, v in d[1].items() if k != 'rcut_f'},
                                                           **({'rcut': 2.5} if d[0] == 'LennardJones' else {}))])
-    clo = st.tuples(st.sampled_from(['PY', 'PY', 'HNC', 'MSA', 'MS']), st.booleans()).map(lambda t: [t[0], True if t[0] in ('MSA', 'MS') else t[1]])
+    # MSA / MS without the hard-core flag are legal objects too (wiring and isolation do not need a convergent system)
+    clo = st.tuples(st.sampled_from(['PY', 'PY', 'HNC', 'MSA', 'MS']), st.booleans()).map(lambda t: [t[0], t[1]])
     om = st.one_of(st.just(['SingleSite', {}]), st.builds(lambda N: ['Gaussian', {'length': N, 'sigma': 1.0}], st.integers(2, 20)),
                    st.builds(lambda N: ['FreelyJointedChain', {'length': N, 'l': 1.0}], st.integers(2, 20)),
                    st.builds(lambda N: ['GaussianRing', {'length': N, 'sigma': 1.0}], st.integers(3, 12)))
